@@ -18,6 +18,7 @@ import (
 	"github.com/hashicorp/go-hclog"
 	"github.com/hashicorp/raft"
 	wal "github.com/hashicorp/raft-wal"
+	"github.com/hashicorp/raft-wal/metadb"
 	"github.com/hashicorp/raft-wal/metrics"
 	"github.com/hashicorp/raft-wal/segment"
 	"github.com/hashicorp/raft-wal/types"
@@ -214,6 +215,7 @@ type walRun struct {
 	mode        string
 	cfs         *crashFS
 	dir         string
+	realMeta    *metadb.BoltMetaDB // mode r: reused across Close/Open on every other line
 	w           *wal.WAL
 	t           *tally
 	mark        int
@@ -321,11 +323,20 @@ func (r *walRun) open() string {
 	var err error
 	var w *wal.WAL
 	if r.mode == "r" {
-		if r.codecID != 1 {
-			w, err = wal.Open(r.dir, wal.WithSegmentSize(r.segSize), wal.WithMetricsCollector(r.t), wal.WithLogger(hclog.NewNullLogger()), wal.WithCodec(&idCodec{id: r.codecID}))
-		} else {
-			w, err = wal.Open(r.dir, wal.WithSegmentSize(r.segSize), wal.WithMetricsCollector(r.t), wal.WithLogger(hclog.NewNullLogger()))
+		// (walOpt is unexported: optional options are passed as harmless repeats of the size option)
+		metaOpt, codecOpt := wal.WithSegmentSize(r.segSize), wal.WithSegmentSize(r.segSize)
+		if len(r.line)%2 == 0 {
+			// every other line reuses ONE BoltMetaDB value across Close/Open, as an
+			// application holding its MetaStore in a field does
+			if r.realMeta == nil {
+				r.realMeta = &metadb.BoltMetaDB{}
+			}
+			metaOpt = wal.WithMetaStore(r.realMeta)
 		}
+		if r.codecID != 1 {
+			codecOpt = wal.WithCodec(&idCodec{id: r.codecID})
+		}
+		w, err = wal.Open(r.dir, wal.WithSegmentSize(r.segSize), wal.WithMetricsCollector(r.t), wal.WithLogger(hclog.NewNullLogger()), metaOpt, codecOpt)
 	} else {
 		sf := segment.NewFiler("d", r.cfs)
 		ms := &cmeta{fs: r.cfs}
